@@ -6,6 +6,8 @@ get a `TypeError` is a label opened for addition and for deletion on the same li
 import Paroxy.Proofs.HintsSched
 namespace Paroxy.Hints
 
+variable {O : CharOracle}
+
 /-! ### One label: depth counting -/
 
 def depth1 (s : St1) : Nat := s.sa.length + s.sd.length
@@ -75,11 +77,11 @@ theorem hintOfTok_ev_isCls (k : Tok) (i : Nat) (h : k.illegal = false) :
   cases b <;> cases a <;> simp_all [Tok.illegal, hintOfTok, Mark.ev, Ev.isCls, Tok.isClose]
 
 theorem stepTok_classify (i : Nat) (st : Bufs) (t : Str) :
-    stepTok i st t = match classify t with
+    (stepTok O) i st t = match (classify O) t with
       | none => .error .valueError
       | some k => stepEv i st k := by
   unfold stepTok classify
-  cases matchLabel t with
+  cases (matchLabel O) t with
   | none => rfl
   | some p => obtain ⟨b, L, a⟩ := p; rfl
 
@@ -99,11 +101,11 @@ theorem isClose_other {k : Tok} {L : Str} (h : L ≠ k.label) : k.isClose L = fa
   simp [Tok.isClose, this]
 
 /-- One accepted step: the token is legal and the depths move as the token says. -/
-theorem stepTok_ok (i : Nat) (st st' : Bufs) (t : Str) (h : stepTok i st t = .ok st') :
-    ∃ k, classify t = some k ∧ k.illegal = false ∧
+theorem stepTok_ok (i : Nat) (st st' : Bufs) (t : Str) (h : (stepTok O) i st t = .ok st') :
+    ∃ k, (classify O) t = some k ∧ k.illegal = false ∧
       ∀ L, depth L st' + (if k.isClose L then 1 else 0) = depth L st + (if k.isOpen L then 1 else 0) := by
   rw [stepTok_classify] at h
-  cases hk : classify t with
+  cases hk : (classify O) t with
   | none => simp [hk] at h
   | some k =>
     simp only [hk] at h
@@ -123,21 +125,21 @@ theorem stepTok_ok (i : Nat) (st st' : Bufs) (t : Str) (h : stepTok i st t = .ok
     · simp [depth, hother L hL, isOpen_other hL, isClose_other hL]
 
 theorem tokCount_cons (f : Tok → Bool) (p : Nat × Str) (toks : List (Nat × Str)) :
-    tokCount f (p :: toks) =
-      (match classify p.2 with | some k => if f k then 1 else 0 | none => 0) + tokCount f toks := by
+    (tokCount O) f (p :: toks) =
+      (match (classify O) p.2 with | some k => if f k then 1 else 0 | none => 0) + (tokCount O) f toks := by
   unfold tokCount
   rw [List.countP_cons]
-  cases classify p.2 with
+  cases (classify O) p.2 with
   | none => simp
   | some k => cases f k <;> simp <;> omega
 
 /-- **An accepted run**: every token accepted; depths account for the marks; no closing mark
 without an open one. -/
 theorem runToks_ok (toks : List (Nat × Str)) :
-    ∀ st st', runToks st toks = .ok st' →
-      (∀ p ∈ toks, rejected p.2 = false) ∧
-      ∀ L, depth L st' + closesOf L toks = depth L st + opensOf L toks ∧
-        ∀ pre, pre <+: toks → closesOf L pre ≤ depth L st + opensOf L pre := by
+    ∀ st st', (runToks O) st toks = .ok st' →
+      (∀ p ∈ toks, (rejected O) p.2 = false) ∧
+      ∀ L, depth L st' + (closesOf O) L toks = depth L st + (opensOf O) L toks ∧
+        ∀ pre, pre <+: toks → (closesOf O) L pre ≤ depth L st + (opensOf O) L pre := by
   induction toks with
   | nil =>
     intro st st' h
@@ -180,9 +182,9 @@ theorem depth_zero_of_empty (L : Str) (st : Bufs) (ha : st.add.stack = []) (hd :
 
 /-- A schedule is only returned for well-formed hint tokens. -/
 theorem collectToks_ok_not_malformed (toks : List (Nat × Str)) (r : Sched × Sched)
-    (h : collectToks toks = .ok r) : ¬ Malformed toks := by
+    (h : (collectToks O) toks = .ok r) : ¬ (Malformed O) toks := by
   unfold collectToks at h
-  cases hrun : runToks {} toks with
+  cases hrun : (runToks O) {} toks with
   | error e => simp [hrun] at h
   | ok st =>
     simp only [hrun] at h
@@ -228,10 +230,10 @@ theorem top_mem (L : Str) (stk : List (Str × Nat)) (x : Nat) (h : top L stk = s
     · rename_i hl; cases h; subst hl; simp
     · exact List.mem_cons_of_mem _ (ih h)
 
-theorem stepTok_error_class (i : Nat) (st : Bufs) (t : Str) (e : Err) (h : stepTok i st t = .error e) :
+theorem stepTok_error_class (i : Nat) (st : Bufs) (t : Str) (e : Err) (h : (stepTok O) i st t = .error e) :
     e = .valueError := by
   rw [stepTok_classify] at h
-  cases hk : classify t with
+  cases hk : (classify O) t with
   | none => simp [hk] at h; exact h.symm
   | some k =>
     simp only [hk] at h
@@ -243,7 +245,7 @@ theorem stepTok_error_class (i : Nat) (st : Bufs) (t : Str) (e : Err) (h : stepT
     · rfl
 
 theorem runToks_error_class (toks : List (Nat × Str)) :
-    ∀ st e, runToks st toks = .error e → e = .valueError := by
+    ∀ st e, (runToks O) st toks = .error e → e = .valueError := by
   induction toks with
   | nil => intro st e h; simp [runToks] at h
   | cons p rest ih =>
@@ -256,9 +258,9 @@ theorem runToks_error_class (toks : List (Nat × Str)) :
 
 /-- `collect_hints` never raises anything else than `ValueError`. -/
 theorem collectToks_error_value (toks : List (Nat × Str)) (e : Err)
-    (h : collectToks toks = .error e) : e = .valueError := by
+    (h : (collectToks O) toks = .error e) : e = .valueError := by
   unfold collectToks at h
-  cases hrun : runToks {} toks with
+  cases hrun : (runToks O) {} toks with
   | error e' =>
     simp only [hrun] at h; cases h
     exact runToks_error_class toks {} e hrun
@@ -273,7 +275,7 @@ theorem collectToks_error_value (toks : List (Nat × Str)) (e : Err)
 
 /-! ### The executable forms are sound -/
 
-theorem malformed_of_B (toks : List (Nat × Str)) (h : malformedB toks = true) : Malformed toks := by
+theorem malformed_of_B (toks : List (Nat × Str)) (h : (malformedB O) toks = true) : (Malformed O) toks := by
   simp only [malformedB, Bool.or_eq_true, List.any_eq_true] at h
   rcases h with ⟨p, hp, hr⟩ | ⟨L, _, hL⟩
   · exact Or.inl ⟨p, hp, hr⟩
